@@ -21,6 +21,15 @@ var sharedType = reflect.TypeOf((*Shared)(nil))
 
 func errHLabel(k string) string { return k + "-error-handler" }
 
+// featSuffix marks findings of the application-scope workload (a defect that only shows when
+// the incoming context already carries a scope is a different defect).
+func (cs *caseState) featSuffix() string {
+	if cs.spec.AppCtx {
+		return ":appctx"
+	}
+	return ""
+}
+
 // pollBound bounds the wait for a close that godi performs on its own goroutine (context
 // watcher winning the race against the deferred Close). Only used on the abort path.
 const pollBound = 15 * time.Second
@@ -86,7 +95,7 @@ func (cs *caseState) checkRequest(st *reqState) (fs []finding, inconclusive stri
 	fw := cs.spec.FW
 	ob := st.snapshot()
 	add := func(clause, feature, format string, a ...any) {
-		fs = append(fs, finding{clause: clause, feature: fw + ":" + feature, detail: fmt.Sprintf(format, a...), req: st.id})
+		fs = append(fs, finding{clause: clause, feature: fw + ":" + feature + cs.featSuffix(), detail: fmt.Sprintf(format, a...), req: st.id})
 	}
 
 	if errors.Is(ob.terr, errDriverWait) || ob.doneTimeout {
@@ -113,7 +122,11 @@ func (cs *caseState) checkRequest(st *reqState) (fs []finding, inconclusive stri
 	}
 
 	// ---- exactly one CreateScope per request passing the middleware ----
-	if passesMW {
+	direct := cs.spec.Direct
+	if direct {
+		// the middleware holds the real provider: CreateScope is not observable, the request's
+		// scope is what the first middleware / the handler saw
+	} else if passesMW {
 		if ob.createCalls != 1 {
 			add("scope-per-request", p.Exit, "CreateScope was called %d times for one request (want exactly 1)", ob.createCalls)
 			if ob.createCalls == 0 {
@@ -125,7 +138,16 @@ func (cs *caseState) checkRequest(st *reqState) (fs []finding, inconclusive stri
 	}
 
 	var sc godi.Scope
-	if created {
+	if created && direct {
+		if len(ob.mws) > 0 {
+			sc = ob.mws[0].scope
+		} else {
+			sc = ob.hScope
+		}
+		if sc != nil {
+			cs.claimScope(st.id, sc)
+		}
+	} else if created {
 		if len(ob.scopes) == 0 {
 			// real godi refused to create a scope on an open provider: not C16's business
 			return fs, fmt.Sprintf("real CreateScope failed on an open provider: %v", ob.createErrs)
@@ -133,6 +155,12 @@ func (cs *caseState) checkRequest(st *reqState) (fs []finding, inconclusive stri
 		sc = ob.scopes[0]
 	} else if passesMW && p.Exit == ExitClosed && len(ob.scopes) > 0 {
 		return fs, "real CreateScope succeeded on a closed provider (C13's business)"
+	}
+
+	// ---- application-scope workload: the request's scope is a fresh one, never the long-lived
+	// scope the incoming context already carried ----
+	if created && sc != nil && cs.appScope != nil && sc == cs.appScope {
+		add("scope-fresh", p.Exit+":app-scope-reused", "the incoming request context derives from an application scope; the scope the request was served with IS that application scope (CreateScope calls attributed to the request: %d)", ob.createCalls)
 	}
 
 	// ---- the error handler runs instead of the handler when there is no scope ----
@@ -276,8 +304,18 @@ func (cs *caseState) checkRequest(st *reqState) (fs []finding, inconclusive stri
 		}
 	}
 
+	// ---- the application scope outlives every request ----
+	if cs.appScope != nil && !cs.providerClosed.Load() {
+		if _, err := cs.appScope.Get(sharedType); err != nil {
+			add("app-scope-closed", p.Exit, "after the request the application scope no longer resolves: %v", err)
+		}
+		if cs.appSvc != nil && cs.appSvc.closes.Load() != 0 {
+			add("app-scope-closed", p.Exit, "after the request the application scope's own scoped instance has %d Close event(s)", cs.appSvc.closes.Load())
+		}
+	}
+
 	// ---- the scope is disposed, its instances closed exactly once ----
-	if created {
+	if created && sc != nil {
 		insts := cs.instancesOf(sc)
 		disposed := func() bool {
 			_, err := sc.Get(sharedType)
@@ -318,7 +356,7 @@ func (cs *caseState) checkRequest(st *reqState) (fs []finding, inconclusive stri
 // documented 500 for the default ones.
 func (cs *caseState) checkErrH(fs *[]finding, st *reqState, ob obs, statusKnown bool, why string) {
 	o := cs.spec.Opts
-	feat := cs.spec.FW + ":" + why + ":" + errHLabel(o.ErrH)
+	feat := cs.spec.FW + ":" + why + ":" + errHLabel(o.ErrH) + cs.featSuffix()
 	if o.ErrH == ErrHDefault {
 		// gin+non-aborting is custom; for the default handler a later handler cannot have run
 		// unless another clause fires, so the status is the default handler's
